@@ -1625,6 +1625,27 @@ def hoist_leading_walrus(func: ast.FunctionDef) -> ast.FunctionDef:
     return ast.fix_missing_locations(new) if changed else func
 
 
+def helper_shape(node: ast.FunctionDef) -> str:
+    """Structural fingerprint of a private helper that survives a pure rename: the definition with its
+    own name, its docstring and the names of private callees blanked."""
+    import copy as _copy
+    import hashlib
+
+    n = _copy.deepcopy(node)
+    n.name = "_"
+    if n.body and isinstance(n.body[0], ast.Expr) and isinstance(n.body[0].value, ast.Constant) and isinstance(n.body[0].value.value, str):
+        n.body = n.body[1:] or [ast.Pass()]
+    for x in ast.walk(n):
+        if isinstance(x, ast.Name) and x.id.startswith("_") and not x.id.startswith("__"):
+            x.id = "_P"
+        elif isinstance(x, ast.Attribute) and x.attr.startswith("_") and not x.attr.startswith("__") and isinstance(x.value, ast.Name) and x.value.id in ("self", "cls"):
+            # private methods called on self; private data attributes keep their names
+            pass
+        if isinstance(x, ast.Call) and isinstance(x.func, ast.Attribute) and isinstance(x.func.value, ast.Name) and x.func.value.id in ("self", "cls") and x.func.attr.startswith("_") and not x.func.attr.startswith("__"):
+            x.func.attr = "_P"
+    return hashlib.sha1(ast.dump(n, annotate_fields=False, include_attributes=False).encode()).hexdigest()[:16]
+
+
 def loops_to_comprehensions(stmts: list) -> dict:
     """Dict / list locals built by the idiom  ``x = {}`` ; ``for t in it: [if c:] x[k] = v``  (or
     ``x = []`` ... ``x.append(v)``) at the top level of ``stmts``  ->  {name: equivalent comprehension}."""
@@ -1755,8 +1776,25 @@ class Program:
             pinned = _json.loads((Path(__file__).with_name("pinned_helpers.json")).read_text())
         except OSError:
             return
+        self.renamed_helpers: dict[str, str] = {}
         for m in self.modules.values():
             known = set(pinned.get(m.name, []))
+            # a pinned private helper that vanished while a new one of identical shape appeared was renamed:
+            # the model keeps the pinned name (rules anchor on it)
+            shapes = pinned.get("shapes", {}).get(m.name, {})
+            present = set(m.functions) | {n for c in m.classes.values() for n in c.methods}
+            vanished = {n for n in shapes if n not in present}
+            if vanished:
+                cands = []
+                for f in list(m.functions.values()) + [f for c in m.classes.values() for f in c.methods.values()]:
+                    if f.name.startswith("_") and not f.name.startswith("__") and f.name not in known:
+                        cands.append(f)
+                for f in cands:
+                    h = helper_shape(f.node)
+                    match = [v for v in vanished if h in shapes[v]]
+                    if len(match) == 1 and sum(1 for g in cands if helper_shape(g.node) == h) == 1:
+                        self._rename_private(m, f.name, match[0])
+                        vanished.discard(match[0])
             fresh = set()
             for f in m.functions.values():
                 if f.name.startswith("_") and not f.name.startswith("__") and f.name not in known:
@@ -1828,6 +1866,28 @@ class Program:
                     if nm in c.methods:
                         del c.methods[nm]
                         self.absorbed.add(f"{m.name}.{c.name}.{nm}")
+
+    def _rename_private(self, m, old: str, new: str) -> None:
+        self.renamed_helpers[f"{m.name}.{old}"] = new
+        if old in m.functions:
+            m.functions[new] = m.functions.pop(old)
+            m.functions[new].name = new
+            m.functions[new].node.name = new
+        for c in m.classes.values():
+            if old in c.methods:
+                c.methods[new] = c.methods.pop(old)
+                c.methods[new].name = new
+                c.methods[new].node.name = new
+        for mod in self.modules.values():
+            for n in ast.walk(mod.tree):
+                if isinstance(n, ast.Name) and n.id == old:
+                    n.id = new
+                elif isinstance(n, ast.Attribute) and n.attr == old:
+                    n.attr = new
+                elif isinstance(n, ast.FunctionDef) and n.name == old:
+                    n.name = new
+                elif isinstance(n, ast.alias) and n.name == old:
+                    n.name = new
 
     def _load(self) -> None:
         for path in sorted(self.src.rglob("*.py")):
